@@ -140,7 +140,7 @@ class Doc:
             if form == 'clark' or not self.tns:
                 s = tag
             elif form == 'prefix':
-                s = 'p:' + local(tag)
+                s = 'w0:' + local(tag)      # a prefix that no generated document binds or uses in a QName value
             else:
                 s = local(tag)
             if positions:
@@ -150,10 +150,19 @@ class Doc:
             steps.append(s)
         ns = None
         if self.tns and form == 'prefix':
-            ns = {'p': L.TNS}
+            ns = {'w0': L.TNS}
         elif self.tns and form == 'default':
             ns = {'': L.TNS}
         return '/' + '/'.join(steps), ns
+
+
+def is_qname_decl(xe: Any) -> bool:
+    """the declaration has the simple type xs:QName (namespace-sensitive text content)"""
+    try:
+        t = xe.type
+        return bool(t.is_simple() and t.root_type.name == '{http://www.w3.org/2001/XMLSchema}QName')
+    except AttributeError:
+        return False
 
 
 def known_match(case: dict, detail: dict) -> Optional[str]:
@@ -270,23 +279,32 @@ def check_partial(ctx: Ctx, spec, doc: Doc, xml: bytes, reqs: list, pend: list, 
     root_scope = dict(scope[0])
 
     def unscoped(selected: list) -> list:
-        """elements inside the selected parts whose xsi:type prefix is resolved differently by the path-driven run:
+        """elements inside the selected parts whose xsi:type / QName prefix is resolved differently by the path-driven run:
         that run knows the declarations of the root (namespace map of the resource), of the selected element itself
         (schemas.py:1374-1376, commit c3a1309) and of the elements below it (pushed by their parent groups), but
         not those of the elements strictly between the root and the selected element"""
         out = []
         for s_ in selected:
             for i, d, _, n in eg.flat:
-                if XSI_TYPE not in eg.elem[i].attrib or not eg.in_subtree(i, s_):
+                if not eg.in_subtree(i, s_):
                     continue
-                v = eg.elem[i].attrib[XSI_TYPE]
-                pfx = v.split(':')[0] if ':' in v else ''
+                # namespace-sensitive content of the element: the value of xsi:type, the text of an xs:QName element
+                used = []
+                if XSI_TYPE in eg.elem[i].attrib:
+                    used.append(eg.elem[i].attrib[XSI_TYPE])
+                if is_qname_decl(eg.gov.get(i)) and (eg.elem[i].text or '').strip():
+                    used.append(eg.elem[i].text.strip())
+                if not used:
+                    continue
                 seen = dict(root_scope)
                 for j in doc.chain(i)[len(doc.chain(s_)) - 1:]:
                     for p_, u_ in eg.node[j]['decls']:
                         seen[p_] = u_
-                if seen.get(pfx) != scope[i].get(pfx):
-                    out.append(i)
+                for v in used:
+                    pfx = v.split(':')[0] if ':' in v else ''
+                    if seen.get(pfx) != scope[i].get(pfx):
+                        out.append(i)
+                        break
         return out
 
     def f3_explains(selected: list, got: list) -> Optional[dict]:
